@@ -13,7 +13,8 @@ from . import polygen, c11
 PROP = "C12"
 RULE = ("cases: as C11, rows with |a|>1 (fractional divisions) over-represented; non-trivial: the system is feasible and "
         "tightening changed at least one bound, or the system is infeasible and lb>ub was reported; distinct by digest of (matrix, bounds)")
-BUDGET = {"quick": (8, 220, 60), "thorough": (16, 4000, 900)}
+BUDGET = {"quick": (12, 450, 90), "thorough": (16, 4000, 1200)}
+PYTEST = True     # thorough tier also runs the repository's own tests under these monitors
 MANDATORY = ["judged:tightened-contains-solutions", "judged:never-widens", "judged:lb>ub-only-when-infeasible",
              "judged:row_bounds-exact", "judged:column_bounds=declared", "judged:n_row_combinations",
              "count:tightened-something", "count:lb>ub-reported", "count:feasible", "count:infeasible"]
